@@ -13,6 +13,14 @@ META = dict(
     engines=[
         dict(name="unit", path="harness/unit", serves_properties=["C18", "C19", "C20"],
              kind_free_text="rapid properties and exhaustive small-domain enumerations over pure components, oracle = independent reference implementation"),
+        dict(name="seq", path="harness/seq (engine.go, exec.go, model in harness/model)", serves_properties=["C01", "C02", "C03", "C05", "C09", "C11", "C13", "C14", "C17"],
+             kind_free_text="model-based stateful property testing of the assembled stack (real Badger, files, worker pool) through the public client API; inline and external (gRPC) bindings"),
+        dict(name="crash", path="harness/seq/crash.go", serves_properties=["C04", "C05"],
+             kind_free_text="child process executes a generated workload and SIGKILLs itself at the n-th persistent mutation (hook); parent enumerates n and judges the recovered state"),
+        dict(name="faults", path="harness/seq/faults.go", serves_properties=["C10"],
+             kind_free_text="fault injection by generated plan: failing/cancelling source readers, ENOSPC (full/partial) at File.Write via hook, per-root free space, failing gRPC stream"),
+        dict(name="race", path="harness/seq/race.go", serves_properties=["C15"],
+             kind_free_text="generated concurrent client programs in a child process of a -race build; the Go race detector is the oracle"),
     ],
     notes=("All checks are property-based tests / fuzzing: generated cases (rapid v1.3.0) against an explicit oracle, shrunk failures saved as JSON replay files under replays/<id>/. "
            "Exit codes: 0 held, 1 + VIOLATION line, 2 inconclusive (infrastructure)."),
@@ -21,7 +29,49 @@ META = dict(
 _ALL = ["C%02d" % i for i in range(1, 21)]
 NOT_APPLICABLE = [dict(property_id=p, reason="check not built yet in this revision of /verif (work in progress; planned in DESIGN.md section 4)") for p in _ALL]
 
+def _e1(engine, technique, text, ref, note):
+    return dict(engine=engine, technique=technique, level_text=text, design_ref=ref, level_note=note)
+
+
+_MODEL_NOTE = "trusts the ~300-line reference model harness/model/model.go (naive MVCC: committed version lists never pruned) and the per-step comparison code in harness/seq/engine.go; fs_db's own UUIDs and directory shuffle are not seeded, oracles do not depend on them"
+
 PER_CHECK = {
+    "C01": _e1("seq", "model-based stateful property testing (rapid): generated autocommit histories vs a map model, read-back after every step",
+               "Generated call histories over boundary-sized contents and exotic keys run against the real assembled inline database; every read is compared with a map model after every step. Exploration: no counterexample among the generated histories.",
+               "DESIGN.md section 4, C01", _MODEL_NOTE),
+    "C02": _e1("seq", "model-based stateful property testing (rapid): generated multi-transaction histories vs an MVCC reference model, every actor reads everything after every step",
+               "Sequential interleavings of up to 6 open transactions of all levels, autocommit writes and collector runs; after every step every open transaction and the autocommit client read every key and GetKeys, compared with the reference model. Exploration.",
+               "DESIGN.md section 4, C02", _MODEL_NOTE),
+    "C03": _e1("seq", "model-based stateful property testing (rapid): commit-heavy histories with scripted conflict fragments vs the reference model (both directions of the conflict iff)",
+               "Commit outcomes (error class) and the committed state after every step are compared with the model, which fails a snapshot commit iff a written key has a newer committed version. Exploration.",
+               "DESIGN.md section 4, C03", _MODEL_NOTE),
+    "C04": _e1("crash", "fault enumeration under property-based generation: for each rapid-generated workload a child process is SIGKILLed at EVERY persistent mutation point (and inside recovery), recovered state judged against the set of allowed states",
+               "Crash points are enumerated exhaustively per workload at hook granularity (file create/write/close/remove, mkdir, Badger set/delete/transaction before+after), workloads are generated; the oracle computes the allowed states from the acknowledged prefix. fault_enumeration over generated workloads.",
+               "DESIGN.md section 4, C04", "process kill only (page cache survives); hook granularity; " + _MODEL_NOTE),
+    "C05": _e1("seq", "model-based stateful property testing (rapid) across Close/Open and across OS processes, with other databases opened in the same process",
+               "Histories with reopen in the same process and in fresh child processes (which first open and write other databases) are compared with the model after every step and right after every open. Exploration.",
+               "DESIGN.md section 4, C05", _MODEL_NOTE),
+    "C09": _e1("seq", "model-based stateful property testing (rapid) with the collector at every position + metamorphic relation (same program without collector steps gives the same observations)",
+               "Collector runs are inserted at every position (half of the cases after EVERY step); all actors read everything before and after; additionally the observation log must equal that of the collector-free program. Exploration.",
+               "DESIGN.md section 4, C09", _MODEL_NOTE),
+    "C10": _e1("faults", "fault injection driven by property-based generation (rapid): one write x fault kind x position x root subset x client, oracle 'error => old value, success => exact bytes'",
+               "Fault positions are drawn from boundary sets and at random over content lengths up to 100 KiB through seven client paths; the oracle reads back through independent clients. fault_enumeration over generated fault plans (not every byte position).",
+               "DESIGN.md section 4, C10", "hooks at File.Write / disk usage; asynchronous server-side completion is awaited by hook quiescence"),
+    "C11": _e1("seq", "differential property testing (rapid): the inline history generators executed through the gRPC client against an in-process server, both clients held to the same reference model",
+               "The same generated histories that decide C01-C03/C13 for the inline client run through external.Open against internal/app on a loopback listener; values byte-exact, error classes via errors.Is. Exploration.",
+               "DESIGN.md section 4, C11", _MODEL_NOTE + "; loopback TCP inside one process"),
+    "C13": _e1("seq", "model-based stateful property testing (rapid): histories that keep using ended and never-existing transaction handles, all observers read back after every step, restart at the end",
+               "35% of the operations go through ended/unknown handles; their error class and their (non-)effect on every observer and on the restarted database are compared with the model. Exploration; one known finding is excused by an exact signature.",
+               "DESIGN.md section 4, C13", _MODEL_NOTE),
+    "C14": _e1("seq", "model-based stateful property testing (rapid): fault-free histories, quiescence, directory walk compared with the model's live contents",
+               "After a generated history ends (three ending variants incl. Close with work pending) the multiset of files under the roots must equal one file per readable key. Exploration.",
+               "DESIGN.md section 4, C14", _MODEL_NOTE + "; quiescence by polling with a stability window"),
+    "C15": _e1("race", "property-based generation of concurrent client programs (rapid), each run in a -race child process; oracle = Go race detector (sanitizer), reports keyed by function pair",
+               "Generated 3-8 goroutine programs over one handle (inline cold/warm, and through the gRPC server) run on the unmodified primitives under the race detector. Exploration of schedules the Go runtime happens to produce.",
+               "DESIGN.md section 4, C15", "the race detector sees only races exposed by the executed schedule"),
+    "C17": _e1("seq", "model-based stateful property testing (rapid): burst histories over 1-3 roots and all clamped directory limits, directory-tree invariants after every step, reuse probe",
+               "Bursts fill directories to the limit; a walk after every step checks placement, per-root availability and the entry bound; a directory that regained room must be reused within 64k writes. Exploration.",
+               "DESIGN.md section 4, C17", _MODEL_NOTE),
     "C18": dict(
         engine="unit",
         technique="property-based testing: exhaustive small-domain enumeration + rapid-generated operation sequences against a linear-scan reference",
